@@ -246,6 +246,12 @@ fn trig_check(start: f32, sweep: f32, eps: f64) -> Result<f64, String> {
     if op != want_op && (w64.abs() - 180.0).abs() > 0.001 {
         return Err(format!("class=wrong_operation start={} sweep={} op={} expected={}", start, sweep, op, want_op));
     }
+    // the two rays of an Intersection sector must be in proper position (Coq: K18_tiny_sweep_opposite_side = false)
+    // as soon as the sweep exceeds the resolution of the normals (whole degrees in the fixed_point build)
+    let (min_sweep, max_sweep) = if cfg!(feature = "fixed_point") { (1.01, 178.99) } else { (0.1, 179.9) };
+    if op == 0 && w64.abs() >= min_sweep && w64.abs() < max_sweep && (r.x as i64 * l.y as i64 - r.y as i64 * l.x as i64) <= 0 {
+        return Err(format!("class=degenerate_cone start={} sweep={} left=({},{}) right=({},{})", start, sweep, l.x, l.y, r.x, r.y));
+    }
     let (right_deg, left_deg) = if w64 < 0.0 { (s64 + w64, s64) } else { (s64, s64 + w64) };
     let e = nerr(r, right_deg).max(nerr(l, left_deg));
     if e > eps {
@@ -399,7 +405,11 @@ pub fn search(suite: &str, a: &[&str]) -> Option<String> {
                 let (inside, dist) = ideal.classify(p);
                 if !inside && dist > 1.5 {
                     // |sweep| below the resolution of the 1024-scaled normals: both half planes share one line
-                    let class = if ang_deg64(a[4]).abs() < 0.06 { "tiny_sweep_opposite_side" } else { "point_outside_sweep" };
+                    // (the class predicate K18_tiny_sweep_opposite_side of Proofs/Sectormodel.v, evaluated on the hook's values)
+                    let (op, l, r) = plane_sector_parts(s, w);
+                    // narrowed to its real instances: both rounded normals equal
+                    let degenerate = op == 0 && r == l;
+                    let class = if degenerate { "tiny_sweep_opposite_side" } else { "point_outside_sweep" };
                     return Some(format!("FAIL class={} {:?} is {:.3} px outside the swept angle", class, p, dist));
                 }
                 n += 1;
